@@ -1,4 +1,5 @@
 from collections import deque
+import copy
 
 import inspect
 import re
@@ -243,6 +244,17 @@ class CxxParser:
 
             if tok.type in self._end_balanced_tokens:
                 expected = match_stack.pop()
+                if (
+                    tok.type == "DBL_RBRACKET"
+                    and expected == "]"
+                    and match_stack
+                    and match_stack[-1] == "]"
+                ):
+                    # 'a[b[0]]': the lexer fuses the two closers into one ']]'
+                    # token; take them apart again
+                    tok.type = tok.value = "]"
+                    consumed.append(copy.copy(tok))
+                    match_stack.pop()
                 if tok.type != expected:
                     # hack: we only claim to parse correct code, so if this
                     # is less than or greater than, assume that the code is
